@@ -37,6 +37,8 @@ func DefaultConfig() Config {
 		Solver: "z3", FPSolver: "cvc5", TimeoutMs: 60000, MapOrderMax: 1, Workers: 8, ModulePath: "github.com/Vedant9500/WTF"}
 }
 
+var debugDecisions = os.Getenv("VERIF_DEBUG_DECISIONS") != ""
+
 type abortKind int
 
 const (
@@ -172,6 +174,7 @@ type interpreter struct {
 	callLog map[*ssa.Function]int // per worker, cumulative
 
 	inInit         int
+	whyLog         []string
 	model          map[int]uint64 // a model of the current PC (nil = none cached)
 	modelHits      int
 	whyCount       map[string]int
@@ -217,6 +220,7 @@ func (i *interpreter) resetPath(prefix []int) {
 	i.nonASCIITotal += i.nonASCII
 	i.nonASCII = 0
 	i.logPoints = nil
+	i.whyLog = nil
 	i.model = map[int]uint64{}
 	i.ranges = map[int]urange{}
 	i.pcHasF = false
@@ -353,6 +357,68 @@ func (i *interpreter) simp(c *Term) *Term {
 	return c
 }
 
+// reduce rewrites t under the facts of the path condition: Bool subterms fixed
+// by known atoms / intervals become constants and everything above them is
+// re-folded. The result is equal to t on every state satisfying the PC.
+func (i *interpreter) reduce(t *Term) *Term {
+	if t.IsConst() || t.Op == OpVar {
+		if t.Sort == SBool {
+			return i.simp(t)
+		}
+		return t
+	}
+	memo := map[int]*Term{}
+	var rec func(t *Term) *Term
+	rec = func(t *Term) *Term {
+		if t.IsConst() {
+			return t
+		}
+		if r, ok := memo[t.ID]; ok {
+			return r
+		}
+		var r *Term
+		if t.Sort == SBool {
+			if v, ok := i.evalRanges(t); ok {
+				r = i.st.Bool(v)
+				memo[t.ID] = r
+				return r
+			}
+		}
+		if t.Op == OpVar {
+			memo[t.ID] = t
+			return t
+		}
+		args := make([]*Term, len(t.Args))
+		changed := false
+		for k, a := range t.Args {
+			args[k] = rec(a)
+			if args[k] != a {
+				changed = true
+			}
+		}
+		r = t
+		if changed {
+			r = i.st.Make(t, args)
+		}
+		memo[t.ID] = r
+		return r
+	}
+	return rec(t)
+}
+
+// reduceVal applies reduce to a symbolic scalar value.
+func (i *interpreter) reduceVal(v value) value {
+	sv, ok := v.(*Sym)
+	if !ok {
+		return v
+	}
+	r := i.reduce(sv.T)
+	if r == sv.T {
+		return v
+	}
+	return i.val(r, sv.K)
+}
+
 // decide resolves a symbolic condition, forking the exploration.
 func (i *interpreter) decide(c *Term, why string) bool {
 	if c.IsConst() {
@@ -367,6 +433,9 @@ func (i *interpreter) decide(c *Term, why string) bool {
 	if pos < len(i.prefix) {
 		d := i.prefix[pos]
 		i.decisions = append(i.decisions, d)
+		if debugDecisions {
+			i.whyLog = append(i.whyLog, fmt.Sprintf("#%d %s => %v (replayed)", pos, why, d))
+		}
 		if d == 1 {
 			i.assume(c)
 		} else {
@@ -376,6 +445,9 @@ func (i *interpreter) decide(c *Term, why string) bool {
 	}
 	if i.whyCount != nil {
 		i.whyCount[why]++
+	}
+	if debugDecisions {
+		defer func() { i.whyLog = append(i.whyLog, fmt.Sprintf("#%d %s -> %v", len(i.decisions)-1, why, i.decisions[len(i.decisions)-1])) }()
 	}
 	nc := i.st.Not(c)
 	sv := i.solverFor(c)
@@ -724,6 +796,12 @@ func (i *interpreter) runPath(entry *ssa.Function, prefix []int) (res *PathResul
 		res.Asserts, res.Syntactic, res.Solver = i.asserts, i.syntactic, i.solved
 		res.Steps = i.steps
 		res.Forks = i.forks
+		if debugDecisions && fmt.Sprint(res.Decisions) == os.Getenv("VERIF_DEBUG_DECISIONS") || os.Getenv("VERIF_DEBUG_DECISIONS") == "all" {
+			fmt.Println("==== decisions of path", res.Decisions, res.Status, res.Msg)
+			for _, l := range i.whyLog {
+				fmt.Println("   ", l)
+			}
+		}
 		res.Trace = i.trace
 		if res.Status == "ok" || res.Status == "panic" {
 			res.Sample = i.samplePath()
@@ -998,6 +1076,16 @@ func (p *Program) RunConcrete(fn *ssa.Function, cfg Config, vec []ReplayVal) *Pa
 	}
 	defer i.close()
 	return i.runPath(fn, nil)
+}
+
+// RunPrefix executes one symbolic path following the given decisions (debugging).
+func (p *Program) RunPrefix(fn *ssa.Function, cfg Config, prefix []int) *PathResult {
+	i, err := p.newInterp(&cfg, fn.Name(), 0)
+	if err != nil {
+		return &PathResult{Status: "internal", Msg: err.Error()}
+	}
+	defer i.close()
+	return i.runPath(fn, prefix)
 }
 
 func (p *Program) newInterp(cfg *Config, harness string, id int) (*interpreter, error) {
